@@ -36,6 +36,7 @@ type (
 	SCall   struct{ Fn string; Args []SExpr }
 	SOld    struct{ X SExpr }
 	SPrev   struct{ X SExpr }
+	SEntry  struct{ X SExpr }
 	SQuant  struct {
 		Forall  bool
 		Vars    []string
@@ -340,6 +341,11 @@ func (p *specParser) parsePrimary() SExpr {
 			e := p.parseExpr()
 			p.expect(")")
 			return &SOld{e}
+		case "entry":
+			p.expect("(")
+			e := p.parseExpr()
+			p.expect(")")
+			return &SEntry{e}
 		case "prev":
 			p.expect("(")
 			e := p.parseExpr()
@@ -399,6 +405,7 @@ type FuncContract struct {
 	Key       string // e.g. parse.(*lexer).next
 	Requires  []Clause
 	Ensures   []Clause
+	Asserts   []Clause // checked at every return of the body (may mention locals); never assumed by callers
 	Decreases *Clause
 	Loops     map[int]*LoopSpec
 	Inline    bool
@@ -407,6 +414,7 @@ type FuncContract struct {
 	Modifies  []string // heap keys or "*"; nil = computed automatically
 	HasMod    bool
 	NoSweep   bool // do not generate safety obligations (function outside sweep)
+	Implements string // key of a functype contract whose clauses this function inherits
 	Opaque    []string
 	File      string
 	Used      bool
@@ -521,7 +529,7 @@ func (c *Contracts) loadFile(path string, pkgName string) error {
 			}
 			cur = &FuncContract{Key: key, Loops: map[int]*LoopSpec{}, File: path}
 			c.Funcs[key] = cur
-		case "requires", "ensures", "decreases":
+		case "requires", "ensures", "decreases", "asserts":
 			if cur == nil {
 				return fmt.Errorf("%s:%d: clause outside func", path, j.line)
 			}
@@ -534,6 +542,8 @@ func (c *Contracts) loadFile(path string, pkgName string) error {
 				cur.Requires = append(cur.Requires, cl)
 			case "ensures":
 				cur.Ensures = append(cur.Ensures, cl)
+			case "asserts":
+				cur.Asserts = append(cur.Asserts, cl)
 			case "decreases":
 				cur.Decreases = &cl
 			}
@@ -577,6 +587,8 @@ func (c *Contracts) loadFile(path string, pkgName string) error {
 			cur.HasMod = true
 		case "nosweep":
 			cur.NoSweep = true
+		case "implements":
+			cur.Implements = rest
 		case "modifies":
 			cur.HasMod = true
 			for _, m := range strings.Split(rest, ",") {
